@@ -134,7 +134,7 @@ def build(ctx, hist, lits, qtable, nq_per_mime, extra, full, interleave=False, b
         if r['k'] in ('AddCmd', 'AddCmdRegexp'):
             # stdin/stdout form or the $in / $in $out / $in.ext --o=$out.ext temp-file forms, invoked as often as the
             # queries happen to reach them (the shell forms cost two processes per call, hence the weights)
-            r['cmd'] = rnd.choice([1, 1, 1, 2, 2, 3, 4])
+            r['cmd'] = rnd.choice([1, 1, 1, 1, 2, 2, 3, 4])
     return dict(items=items)
 
 
@@ -239,7 +239,7 @@ def run(ctx):
     ctx.coverage['histories_enumerated'] = len(hists)
     ctx.coverage['cmd_protocol_design'] = cmd_protocol(ctx)
     # random walks beyond the exhaustive bound
-    nsim = 80 if quick else 2500
+    nsim = 80 if quick else 1500
     rs = vlib.tlc(ctx, 'Registry', 'Registry_sim.cfg', workers=1, simulate='num=%d' % nsim, depth=9, seed=ctx.seed,
                   timeout=900)
     if rs['errors'] or rs['invariant_violations']:
@@ -261,7 +261,7 @@ def run(ctx):
             behaviours.append(build(ctx, list(h), lits, qtable, 1, 3, False, interleave=True))
     else:
         long = [h for h in hists if len(h) == 4]
-        long = vlib.sample(long, 30000, ctx.rnd)
+        long = vlib.sample(long, 15000, ctx.rnd)
         ctx.coverage['histories_len4_replayed'] = len(long)
         for h in hists:
             if len(h) <= 2:
@@ -346,7 +346,7 @@ def run(ctx):
                          ('all histories of length <= 2 and a seeded 2500 of length 3, 5 of the 9 query mimetypes each (sampled, not exhaustive)'
                           if quick else
                           'every history of length <= 3 x every one of the 9 query mimetypes x {Match, Minify} (full 45-string table x '
-                          '{Match,Minify,MinifyMimetype} up to length 2, two decorations per mimetype at length 3); length 4: seeded 30000 of 104976'),
+                          '{Match,Minify,MinifyMimetype} up to length 2, two decorations per mimetype at length 3); length 4: seeded 15000 of 104976'),
     ))
     ctx.assumptions += [
         'TLC evaluates Registry.Lookup/Split; Split is cross-checked against parse.Mediatype on every query (disagreement = exit 2)',
